@@ -237,20 +237,21 @@ func (e *Env) prepare(op *Op) (doc *ast.Document, text string, vars string, err 
 	return &d, text, vars, nil
 }
 
-// entityFeature: none | single | mixed (entity operation whose representations are of >= 2 types)
+// entityFeature: none | single | multi (entity operation that looks up >= 2 entity types)
 func entityFeature(op *Op) string {
-	if len(op.Fed) == 0 {
+	n := 0
+	for _, f := range op.Fed {
+		if f.Field == "" {
+			n++
+		}
+	}
+	switch {
+	case n == 0:
 		return "none"
+	case n == 1:
+		return "single"
 	}
-	types := map[string]bool{}
-	gjson.ParseBytes(op.Values["representations"]).ForEach(func(_, v gjson.Result) bool {
-		types[v.Get("__typename").String()] = true
-		return true
-	})
-	if len(types) > 1 {
-		return "mixed"
-	}
-	return "single"
+	return "multi"
 }
 
 func fedConfigs(op *Op) plan.FederationFieldConfigurations {
